@@ -4,15 +4,15 @@ import "verifharness/internal/fw"
 
 // Run executes the C12 monitors.
 func Run(c *fw.Ctx) {
-	c.Cases("copy.scalar", c.N(3600, 36000), scalarCopyCase)
-	c.Cases("copy.vector", c.N(10800, 108000), func(cs *fw.Case) { containerCopyCase(cs, false) })
-	c.Cases("copy.matrix", c.N(25200, 252000), func(cs *fw.Case) { containerCopyCase(cs, true) })
-	c.Cases("copy.iterator", c.N(9360, 93600), iteratorCloneCase)
-	c.Cases("copy.avl", c.N(1200, 12000), avlCopyCase)
-	c.Cases("copy.gradient", c.N(160, 1600), gradientCopyCase)
-	c.Cases("input.op", c.N(15480, 154800), opsInputCase)
-	c.Cases("input.algorithm", c.N(14848, 148480), algInputCase)
-	c.Cases("dist", c.N(8064, 80640), distCase)
-	c.Cases("input.estimator", c.N(2080, 20800), estimatorCase)
-	c.Cases("input.classifier", c.N(1200, 12000), classifierCase)
+	c.Cases("copy.scalar", c.N(7200, 216000), scalarCopyCase)
+	c.Cases("copy.vector", c.N(21600, 648000), func(cs *fw.Case) { containerCopyCase(cs, false) })
+	c.Cases("copy.matrix", c.N(50400, 1512000), func(cs *fw.Case) { containerCopyCase(cs, true) })
+	c.Cases("copy.iterator", c.N(18720, 561600), iteratorCloneCase)
+	c.Cases("copy.avl", c.N(2400, 72000), avlCopyCase)
+	c.Cases("copy.gradient", c.N(320, 9600), gradientCopyCase)
+	c.Cases("input.op", c.N(30960, 928800), opsInputCase)
+	c.Cases("input.algorithm", c.N(29696, 890880), algInputCase)
+	c.Cases("dist", c.N(16128, 483840), distCase)
+	c.Cases("input.estimator", c.N(4160, 124800), estimatorCase)
+	c.Cases("input.classifier", c.N(2400, 72000), classifierCase)
 }
